@@ -70,13 +70,31 @@ func findOffsetInstances(p *core.Prog) []offsetInstance {
 			// accumulator: V += L inside the loop
 			for _, u := range stmtNodes(g) {
 				ua, ok := u.Ast.(*ast.AssignStmt)
-				if !ok || ua.Tok != token.ADD_ASSIGN || len(ua.Lhs) != 1 || len(ua.Rhs) != 1 {
+				if !ok || len(ua.Lhs) != 1 || len(ua.Rhs) != 1 {
 					continue
 				}
 				if ua.Pos() < inst.Loop.Pos() || ua.End() > inst.Loop.End() {
 					continue
 				}
-				if core.ObjOf(info, ua.Rhs[0]) == inst.LenObj {
+				// V += L, or V = V + L / V = L + V
+				addend := ast.Expr(nil)
+				switch ua.Tok {
+				case token.ADD_ASSIGN:
+					addend = ua.Rhs[0]
+				case token.ASSIGN:
+					if be, isB := core.Unparen(ua.Rhs[0]).(*ast.BinaryExpr); isB && be.Op == token.ADD {
+						lv := core.ObjOf(info, ua.Lhs[0])
+						if lv != nil && core.ObjOf(info, be.X) == lv {
+							addend = be.Y
+						} else if lv != nil && core.ObjOf(info, be.Y) == lv {
+							addend = be.X
+						}
+					}
+				}
+				if addend == nil {
+					continue
+				}
+				if core.ObjOf(info, addend) == inst.LenObj {
 					if v := core.ObjOf(info, ua.Lhs[0]); v != nil {
 						if inst.Acc == nil || inst.Acc == v {
 							inst.Acc = v
